@@ -1283,6 +1283,17 @@ def rule_inverse_pairs(chk, tus):
     # clip bound = last knot index
     clips = [n for n in pf.walk_no_nested(a2q) if isinstance(n, ast.Call) and _lib_func(n.func) and "clip" in _lib_func(n.func)]
     for cl in clips:
+        # the bound is in knot units: the clip acts on the index after it has been converted to knot units
+        late = [nd for nd in fnode.values() if nd.lineno > cl.lineno]
+        inst = "clip to the last knot acts on the knot index (after the ladder -> knot rescale)"
+        if late and f2 != Poly.const(1):
+            chk.violation("inverse-pair", PLANS, "%s.get_a2q_fast" % SPLINE_CLASS, pf.src(late[0])[:120], late[0].lineno,
+                          "the index is clipped to the last knot (%s) BEFORE it is converted from ladder units to knot units "
+                          "(factor %s): the bound is applied to a ladder index, and the rescaled index can exceed the last "
+                          "knot (or large exponents are cut off too early)" % (pf.src(cl.args[2])[:40] if len(cl.args) > 2 else "?",
+                                                                              f2.text()), instance=inst)
+        else:
+            chk.ok("inverse-pair", inst)
         ints = [a.args[0] for a in cl.args if isinstance(a, ast.Call) and (pf.call_name(a) or "").endswith("c_int") and a.args]
         if len(ints) < 1:
             raise core.AnalysisError("%s.get_a2q_fast: upper bound of the clip not recognised" % SPLINE_CLASS)
@@ -2216,6 +2227,7 @@ def mutants(tree):
         Mutant("coefficient multipliers broadcast along a fixed axis", PLANS, fn=_fixed_axis_cmul, expect="layout-aware"),
         Mutant("lowmem loop indexes the one-exponent result without reshape", "ciderpress/pyscf/sdmx_slow.py",
                "                _cao = _cao.reshape(ncpa, coords.shape[0], -1)\n", "", expect="rank-drop"),
+        Mutant("index clipped before the ladder -> knot rescale", PLANS, fn=_clip_first, expect="inverse-pair"),
         Mutant("knot-index scaling off by one", PLANS, "di[:] *= (self._spline_size - 1) / (self.nalpha - 1)",
                "di[:] *= self._spline_size / self.nalpha", expect="inverse-pair"),
         Mutant("knot layout off by one", PLANS, "interp_indexes * (self.nalpha - 1) / (self._spline_size - 1)",
@@ -2231,6 +2243,17 @@ def mutants(tree):
         Mutant("etb index uses lambd instead of log(lambd)", F_COEFS, "double ratio = 1.0 / log(lambd);", "double ratio = 1.0 / lambd;",
                expect="inverse-pair"),
     ]
+
+
+def _clip_first(text):
+    a = ("        if self._spline_size != self.nalpha:\n"
+         "            di[:] *= (self._spline_size - 1) / (self.nalpha - 1)\n"
+         "            derivi[:] *= (self._spline_size - 1) / (self.nalpha - 1)\n")
+    i = text.find(a)
+    j = text.find("        return di, derivi\n", i)
+    if i < 0 or j < 0:
+        return None
+    return text[:i] + text[i + len(a):j] + a + text[j:]
 
 
 def _fixed_axis_cmul(text):
